@@ -103,6 +103,12 @@ let handle = function
        | Err _ -> "Err" | Panic _ -> "Panic" | OutOfFuel -> "OutOfFuel")
   | ["unc"; h] -> show_p (fun b -> if b then "A" else "R") (uncertain_check (bytes_of_hex h))
   | ["chainu"; k; l; r] -> show_w (chain_new_uncertain (k = "R") (nat_arg l) (nat_arg r))
+  | ["ends"; k; h; b] ->
+      let root = if k = "A" then [[]] else [] in
+      if ends_with (parse_labels (bytes_of_hex h) @ root) (parse_labels (bytes_of_hex b) @ root) then "true" else "false"
+  | ["starts"; k; h; b] ->
+      let root = if k = "A" then [[]] else [] in
+      if starts_with (parse_labels (bytes_of_hex h) @ root) (parse_labels (bytes_of_hex b) @ root) then "true" else "false"
   | ["intorel"; h] -> show_p (fun l -> "Ok:" ^ hex_of_bytes l) (n_into_relative (bytes_of_hex h))
   | ["intoabs"; h] -> show_p (fun l -> "Ok:" ^ hex_of_bytes l) (n_into_absolute None (bytes_of_hex h))
   | ["txt"; cs] ->
